@@ -150,7 +150,7 @@ func gen(body []byte) *core.Verdict {
 	}
 	json.Unmarshal(body, &q)
 	rng := rand.New(rand.NewSource(q.Seed*1000003 + int64(q.Tid)))
-	prefixes := []string{">", "  ", "// ", "\t", "é ", "#>-", "ab\n"}
+	prefixes := []string{">", "  ", "// ", "\t", "é ", "#>-", "ab\n", "-", "--"}
 	p := prefixes[rng.Intn(len(prefixes))]
 	v := &core.Verdict{OK: true, Class: "generated", NT: true}
 	emit := func(m map[string]any) {
@@ -158,9 +158,13 @@ func gen(body []byte) *core.Verdict {
 		v.Events = append(v.Events, b)
 	}
 	emit(map[string]any{"ev": "reset", "tid": q.Tid, "prefix": ints([]byte(p))})
-	if rng.Intn(5) == 0 {
-		// nested writers: an outer indenting writer on top of an inner one, written to in any order
+	if rng.Intn(3) == 0 {
+		// nested writers: an outer indenting writer on top of an inner one, written to in any order; every other time both
+		// have the same prefix (as recursive printers do)
 		p2 := prefixes[rng.Intn(len(prefixes))]
+		if rng.Intn(2) == 0 {
+			p2 = p
+		}
 		var sink bytes.Buffer
 		inner := indent.NewWriter(&sink, p)
 		var outer io.Writer
